@@ -14,5 +14,8 @@ for f in mutants/revfix/*.diff; do h=$(basename $f | cut -c1-7); echo "${RP[$h]}
 out=mutants/regression-all-mutants.log
 xargs -P $jobs -L 1 tools/sensitivity.sh < $list 2>&1 | cut -c1-260 | sort > $out.tmp
 mv $out.tmp $out; rm -f $list
-echo "detected: $(grep -c '^DETECTED' $out)  missed: $(grep -c '^MISSED' $out)"
-grep '^MISSED' $out
+eq=$(grep -v '^#' mutants/equivalent.txt | sed 's/^/ /; s/$/:/' )
+grep '^MISSED' $out | grep -F -f <(grep -v '^#' mutants/equivalent.txt) > $out.eq
+grep '^MISSED' $out | grep -v -F -f <(grep -v '^#' mutants/equivalent.txt) > $out.missed
+echo "detected: $(grep -c '^DETECTED' $out)  missed: $(wc -l < $out.missed)  equivalent / outside the domain (mutants/equivalent.txt): $(wc -l < $out.eq)"
+cat $out.missed; rm -f $out.eq $out.missed
